@@ -241,7 +241,50 @@ def odd_names(rep: Report) -> None:
                               {"name": n})
 
 
+def after_failed_prints(rep: Report, rng) -> None:
+    """a print that dies half-way (RecursionError on an expression too tall for the interpreter's default limit) must
+    leave nothing behind: everything printed before prints the same afterwards, and still evaluates back"""
+    import inspect
+    import sys
+    x, y = X.Variable("x"), X.Variable("y")
+    g = gen.Gen(rng, names=("x", "y"))
+    samples = [g.expr(d) for d in (1, 2, 3, 3, 4, 4)] + [X.Add(x, X.Constant(1)), X.Multiply(x, y, X.Constant(2.5))]
+    tall_sum = x
+    for k in range(170):
+        tall_sum = X.Add(tall_sum, X.Constant(float(k))) if k % 2 else X.Multiply(tall_sum, X.Constant(1.5))
+    samples.append(tall_sum)
+    objs = samples + [sm.Derivative(samples[-3]), sm.Partial(samples[-2], "y"), sm.Differential(samples[-2]),
+                      sm.LocatedDifferential(samples[-2], Point(x=2.0, y=0.5)), Point(x=1.0, y=2.0)]
+    before = [call(lambda: (repr(o), str(o))) for o in objs]
+    too_tall = x
+    for _ in range(3000):
+        too_tall = X.Negation(too_tall)
+    for k in range(40):
+        too_tall = X.Add(too_tall, X.Constant(1.0)) if k % 2 else X.Multiply(X.Constant(2.0), too_tall, y)
+    failed = []
+    old = sys.getrecursionlimit()
+    try:
+        sys.setrecursionlimit(1000 + len(inspect.stack(0)))
+        for how in (repr, str, repr, lambda e: repr(sm.Derivative(X.Sine(e))), lambda e: str(sm.Differential(e)), repr):
+            failed.append(call(lambda: how(too_tall))[0])
+    finally:
+        sys.setrecursionlimit(old)
+    rep.count("failed-prints", "/".join(failed))
+    after = [call(lambda: (repr(o), str(o))) for o in objs]
+    for o, b, a in zip(objs, before, after):
+        rep.evaluations += 1
+        if a != b:
+            rep.violation(f"after prints of another (too deeply nested) expression had failed, a {type(o).__name__} prints as {str(a)[:200]} - before: "
+                          f"{str(b)[:200]}", {"object": str(b)[:300], "failed": failed})
+        elif a[0] == "ok" and wire.cls(o) in wire.HEAD and o is not tall_sum:
+            back = call(lambda: eval(a[1][0], dict(NS)))
+            if back[0] != "ok" or not (back[1] == o):
+                rep.violation(f"after failed prints, eval(repr(e)) no longer rebuilds e: {a[1][0][:200]}", {"object": a[1][0][:300]})
+
+
 def run(rep: Report, rng, tier: str, known: dict, search: bool = False) -> None:
+    if not search:
+        after_failed_prints(rep, rng)
     odd_names(rep)
     x = X.Variable("x")
     f1 = [{"origin": "corpus", "e": wire.expr(X.NthRoot(x, 3)), "m": wire.expr(X.NthPower(x, 3)), "mkind": "class"}]
